@@ -12,6 +12,8 @@ FUNCS = [
     ("cliIncludeAll", T.CM, "_include_all"),
     ("cliExcludeAll", T.CM, "_exclude_all"),
     ("cliParseFieldTolerances", T.CM, "_parse_field_tolerances"),
+    ("cliPatternFilterInit", T.CM, "PatternFilter.__init__"),
+    ("cliFieldToleranceMapInit", T.CM, "FieldToleranceMap.__init__"),
 ]
 
 
